@@ -8,12 +8,61 @@ use redirectionio::http::Header;
 use rio_harness::*;
 use serde_json::{json, Value};
 
-const NAMES: &[&str] = &["X-A", "x-a", "X-a", "X-B", "x-b", "Keep", "keep", "Set-Cookie", "", "é", "X-É"];
+// non-ASCII cased letters included: the case carries the table name -> str::to_lowercase(name) computed by Rust, which the
+// driver uses as the `lower` parameter of the model (the theorems hold for every `lower`)
+const NAMES: &[&str] = &["X-A", "x-a", "X-a", "X-B", "x-b", "Keep", "keep", "Set-Cookie", "", "é", "É", "X-É", "x-é", "İ", "i̇", "ǅ", "ǆ", "ẞ", "ß", "Ж", "ж"];
 const VALUES: &[&str] = &["", "1", "v", "V", "a b", "é"];
 const ACTIONS: &[&str] = &["add", "remove", "replace", "override", "default", "Add", "frobnicate", ""];
 
-fn gen(args: &Args, emit: &mut dyn FnMut(Value)) {
+fn with_lower(mut case: Value) -> Value {
+    let mut table = serde_json::Map::new();
+    for key in ["filters", "headers"] {
+        if let Some(a) = case.get(key).and_then(|x| x.as_array()) {
+            for x in a {
+                for f in ["header", "name"] {
+                    if let Some(n) = x.get(f).and_then(|n| n.as_str()) {
+                        table.insert(n.to_string(), Value::String(n.to_lowercase()));
+                    }
+                }
+            }
+        }
+    }
+    case.as_object_mut().unwrap().insert("lower".to_string(), Value::Object(table));
+    case
+}
+
+fn gen(args: &Args, emit0: &mut dyn FnMut(Value)) {
+    let mut emit_l = |v: Value| emit0(with_lower(v));
+    let emit: &mut dyn FnMut(Value) = &mut emit_l;
     let mut rng = Prng::new(args.seed);
+    let h = hints();
+    if !h.is_empty() {
+        // diff-directed cases: hinted strings as header names / values / actions, hinted sizes as list lengths
+        let mut names: Vec<String> = vec!["X-A".to_string(), "x-a".to_string()];
+        for s in &h.strs {
+            names.push(s.clone());
+            names.push(s.to_uppercase());
+            names.push(s.to_lowercase());
+        }
+        let acts = ["add", "remove", "replace", "override", "default", "nope"];
+        let mut sizes = h.sizes(2000);
+        sizes.extend([0usize, 1, 2, 3]);
+        for &n in &sizes {
+            for a in acts {
+                for name in &names {
+                    let headers: Vec<Value> = (0..n).map(|i| json!({"name": names[i % names.len()], "value": format!("h{i}")})).collect();
+                    for via in ["filter", "action"] {
+                        emit(json!({"filters": [{"action": a, "header": name, "value": "v"}, {"action": a, "header": name, "value": "w"}], "headers": headers, "via": via}));
+                    }
+                }
+            }
+        }
+        for s in &h.strs {
+            for a in acts {
+                emit(json!({"filters": [{"action": a, "header": "X-A", "value": s}, {"action": s, "header": "X-A", "value": "v"}], "headers": [{"name": "x-a", "value": s}, {"name": s, "value": "1"}], "via": "action"}));
+            }
+        }
+    }
     if args.tier == "thorough" {
         // exhaustive: k <= 3 filters over a 3-name alphabet (mixed case) x header lists of length <= 4 over the same alphabet
         let names = ["X-A", "x-a", "B"];
